@@ -14,6 +14,9 @@
 (*             cats / want_cats: the categories of each variable's input layer and the  *)
 (*             ones requested for that variable id                                     *)
 (*   ff      : P[v][x]                       p(x) = PROD_v P[v][x_v]                    *)
+(*   logic   : nodes (DAG of literals / conjunctions / disjunctions, deterministic and       *)
+(*             decomposable by construction), root, mc = what integrate returned          *)
+(*             value(x) = truth value of the formula, mc = number of models                *)
 (*   norm    : (C12) the booleans measured by the driver on a template built with        *)
 (*             normalised parameterisations; the specification demands all of them       *)
 EXTENDS Integers, Sequences, FiniteSets, TLC, Json, IOUtils
@@ -66,12 +69,24 @@ HMMVal(e, x) == LET b == Beta(e, x, 1) IN SumTo([z \in 1..e.K |-> e.pi[z] * b[z]
 
 FFVal(e, x) == ProdTo([v \in 1..Len(e.shape) |-> e.P[v][x[v] + 1]], Len(e.shape))
 
+(* propositional formula given as a DAG: nodes[i] = [t in {"lit","nlit","and","or"}, v, ins] *)
+RECURSIVE Holds(_, _, _)
+Holds(e, x, i) ==
+  LET n == e.nodes[i] IN
+  CASE n.t = "lit" -> x[n.v + 1] = 1
+    [] n.t = "nlit" -> x[n.v + 1] = 0
+    [] n.t = "and" -> \A k \in 1..Len(n.ins) : Holds(e, x, n.ins[k])
+    [] n.t = "or" -> \E k \in 1..Len(n.ins) : Holds(e, x, n.ins[k])
+LogicVal(e, x) == IF Holds(e, x, e.root) THEN 1 ELSE 0
+ModelCount(e) == SumTo([q \in 1..Size(e.shape) |-> LogicVal(e, Unravel(q - 1, e.shape))], Size(e.shape))
+
 Formula(e, x) ==
   CASE e.kind = "cp" -> CPVal(e, x)
     [] e.kind = "tucker" -> TuckerVal(e, x)
     [] e.kind = "tt" -> TTVal(e, x)
     [] e.kind = "hmm" -> HMMVal(e, x)
     [] e.kind = "ff" -> FFVal(e, x)
+    [] e.kind = "logic" -> LogicVal(e, x)
 
 Clause(e) ==
   IF ~e.ok THEN 1
@@ -85,6 +100,7 @@ Clause(e) ==
      ELSE 0)
   ELSE IF Len(e.obs) # Size(e.shape) THEN 2
   ELSE IF e.kind = "hmm" /\ e.cats # e.want_cats THEN 4          \* per-variable arguments
+  ELSE IF e.kind = "logic" /\ e.mc # ModelCount(e) THEN 5        \* integrate = model count
   ELSE IF \E q \in 1..Size(e.shape) : e.obs[q] # Formula(e, Unravel(q - 1, e.shape)) THEN 3
   ELSE 0
 
